@@ -842,9 +842,26 @@ protected:
           {
             // Convert value to lowercase for comparison
             std::transform(value.begin(), value.end(), value.begin(), ::tolower);
-            if (value.find("chunked") != std::string::npos)
+            // The body is chunked only if "chunked" is the FINAL transfer coding
+            // (RFC 9112 §6.1). A substring search also matched "xchunked" or
+            // "chunked, gzip". A request whose final coding is not chunked has no
+            // determinable length and must be rejected (RFC 9112 §6.3 rule 4).
+            const auto lastComma = value.rfind(',');
+            std::string finalCoding =
+              value.substr(lastComma == std::string::npos ? 0 : lastComma + 1);
+            finalCoding.erase(0, finalCoding.find_first_not_of(" \t"));
+            finalCoding.erase(finalCoding.find_last_not_of(" \t") + 1);
+            if (finalCoding == "chunked")
             {
               isChunked = true;
+            }
+            else
+            {
+              iora::core::Logger::error("HttpServer: Unsupported transfer-encoding for session " +
+                                        std::to_string(sid) + " - closing connection");
+              // No lock held; guarded close.
+              closeSession(sid);
+              return;
             }
           }
         }
